@@ -6,6 +6,8 @@
 //   S  the Lean spec:       Spec.Connect.connectBlock (same oracle)
 //   G  the Go reference:    refConnect (ref.go) — sequential map semantics; THIS is the property predicate
 // and after it the tip and the full UTXO dump of R are compared with M, S and G.
+// A block that R refuses while G's reason is a failing script is submitted to R again at GOMAXPROCS 1, 4 and 16
+// (multi.go: commitTxs verifies every input in a goroutine of its own; the verdict must not depend on the schedule).
 // Blocks that reach the active chain through a re-organisation (stored on a side branch, connected by MoveToBlock /
 // ParseTillBlock) are judged by R against G only — see reorg.go.
 //   R accepts ∧ G refuses, R refuses but tip/dump changed, R accepts with a dump ≠ G   → property failure (PropFail)
@@ -219,6 +221,10 @@ func (e *episode) judge(kind string, raw []byte, fullDump bool) *outcome {
 	// R
 	tA = time.Now()
 	res := e.k.Submit(raw)
+	if !res.OK() && gerr == "script" {
+		// a verdict about scripts must not depend on the schedule of commitTxs' verification goroutines (multi.go)
+		res = e.resubmit(raw, res)
+	}
 	tReal += time.Since(tA)
 	oc.real = res.String()
 	oc.accepted = res.OK()
@@ -226,6 +232,9 @@ func (e *episode) judge(kind string, raw []byte, fullDump bool) *outcome {
 	e.nblocks++
 	r.Eval("block:"+kind, vlib.ShortHash(raw))
 	r.Hit("real:" + errClass(oc.real))
+	if strings.HasPrefix(kind, "sigops-") || strings.HasPrefix(kind, "bad-input") || kind == "valid-many-inputs" {
+		r.Hit("verdict:" + kind + "=" + errClass(oc.real))
+	}
 	r.Hit("ref:" + oc.ref)
 	if mok {
 		r.Hit("model:ok")
